@@ -100,9 +100,11 @@ func (c *conn) rangeAndClean(f func(index int, resultChan chan data)) {
 }
 
 func (c *conn) Transport(ctx context.Context, request []byte) (response []byte, err error) {
+	verifYield("before-register")
 	index := int(atomic.AddInt32(&c.counter, 1) & 0x7fffffff)
 	resultChan := make(chan data, 1)
 	c.store(index, resultChan)
+	verifYield("registered")
 	select {
 	case <-ctx.Done():
 		c.delete(index)
@@ -114,6 +116,7 @@ func (c *conn) Transport(ctx context.Context, request []byte) (response []byte, 
 	case res := <-resultChan:
 		return res.Body, res.Error
 	}
+	verifYield("enqueued")
 	select {
 	case <-ctx.Done():
 		c.delete(index)
@@ -218,12 +221,14 @@ func (c *conn) Close(err error) {
 		c.onClose(c.Conn)
 		_ = c.Conn.Close()
 	})
+	verifYield("before-clean")
 	c.rangeAndClean(func(index int, resultChan chan data) {
 		resultChan <- data{
 			Index: index,
 			Error: err,
 		}
 	})
+	verifYield("after-clean")
 }
 
 type Transport struct {
@@ -252,6 +257,7 @@ func (trans *Transport) getConn(ctx context.Context) (conn *conn, err error) {
 		return
 	}
 	trans.conns[key] = conn
+	verifNewConn(conn)
 	ctx, cancel := context.WithCancel(context.Background())
 	onExit := func() {
 		trans.lock.Lock()
